@@ -5,8 +5,10 @@ import (
 	"fmt"
 	"math/big"
 	"os"
+	"os/exec"
 	"reflect"
 	"runtime"
+	"strconv"
 	"strings"
 
 	ike "github.com/free5gc/ike"
@@ -344,6 +346,68 @@ func pokeAccessors(v interface{}) {
 	}
 	walk(reflect.ValueOf(v), 0)
 	core.GlobalCount("objects_whose_accessors_were_called")
+}
+
+// ---------------------------------------------------------------------------
+// Fresh-process cases: `vharness fresh <prop> <i> <rep>` runs ONE registered case as the very first use of the library
+// in a new process (lazily initialised state, pools that adapt to the first big input, a fault at first use, first
+// calls that overlap on several goroutines).  The family starts one child per case and repetition.
+
+type freshCase struct {
+	name string
+	f    func(rep int) string // "" = held
+}
+
+var freshCases = map[string][]freshCase{}
+
+func registerFresh(prop string, cs ...freshCase) { freshCases[prop] = append(freshCases[prop], cs...) }
+
+// Fresh is the child side.
+func Fresh(prop string, i, rep int) string {
+	l := freshCases[prop]
+	if i < 0 || i >= len(l) {
+		return "FRESH none"
+	}
+	bad := ""
+	if p := core.Try(func() { bad = l[i].f(rep) }); p != nil {
+		bad = "panic: " + p.Value + " @ " + p.Site
+	}
+	if bad != "" {
+		return "FRESH bad " + l[i].name + ": " + bad
+	}
+	return "FRESH ok " + l[i].name
+}
+
+// freshFamily is the parent side.
+func freshFamily(c *core.Ctx, prop, family string, reps int) {
+	n := len(freshCases[prop])
+	c.Family(family, n*reps, func(k *core.Case) {
+		k.Eval(1)
+		i, rep := k.Index%n, k.Index/n
+		cmd := exec.Command(os.Args[0], "fresh", prop, strconv.Itoa(i), strconv.Itoa(rep))
+		out, err := cmd.CombinedOutput()
+		text := string(out)
+		line := ""
+		for _, l := range strings.Split(text, "\n") {
+			if strings.HasPrefix(l, "FRESH ") {
+				line = strings.TrimSpace(l)
+			}
+		}
+		name := freshCases[prop][i].name
+		switch {
+		case strings.Contains(text, "WARNING: DATA RACE"):
+			k.Violate("race", "data-race-in-a-fresh-process/"+name, "race detector report in the child process", M{"case": name, "rep": rep, "output": clipS(text, 6000)})
+		case strings.Contains(text, "fatal error:"):
+			k.Violate("fatal", "fatal-error-in-a-fresh-process/"+name, "the Go runtime stopped the child process", M{"case": name, "rep": rep, "output": clipS(text, 6000)})
+		case strings.HasPrefix(line, "FRESH bad"):
+			k.Violate("fresh-process", "differs-in-a-fresh-process/"+name, line, M{"case": name, "rep": rep})
+		case err == nil && strings.HasPrefix(line, "FRESH ok"):
+			k.Count("fresh_process_cases_ok", 1)
+			k.Distinct("fresh|" + name)
+		default:
+			k.Inconclusive("fresh-process child %s/%d: %v %s", name, rep, err, clipS(text, 300))
+		}
+	})
 }
 
 // siblingMsg agrees with m in everything a careless cache key might look at (header fields, first payload, number of
